@@ -185,8 +185,13 @@ func (m *monC16) Finish(rc *RunCtx) {
 				e := sc.Rotation[i+1]
 				crop := strings.TrimSpace(r.fields[0])
 				hy, _ := strconv.Atoi(strings.TrimSpace(r.fields[7]))
-				if crop != e.Crop || hy != e.Harvest.Y {
-					rc.Violate("C16", "crop_record_entry_mismatch", fmt.Sprintf("crop record %d is %s harvested in %d, rotation entry %d is %s with harvest year %d", i+1, crop, hy, i+2, e.Crop, e.Harvest.Y), 0, 0, nil)
+				wantY := e.Harvest.Y
+				if sc.AutoHarvest && i < len(harv) {
+					// an automatic harvest may fall into the year before the latest harvest date: the record carries the year it happened
+					wantY = DateOfZeit(harv[i].zeit).Y
+				}
+				if crop != e.Crop || hy != wantY || hy > e.Harvest.Y {
+					rc.Violate("C16", "crop_record_entry_mismatch", fmt.Sprintf("crop record %d is %s harvested in %d, rotation entry %d is %s with harvest year %d (harvest observed in %d)", i+1, crop, hy, i+2, e.Crop, e.Harvest.Y, wantY), 0, 0, nil)
 					break
 				}
 				rc.Cov("crop_records_checked", 1)
